@@ -16,6 +16,7 @@ from .values import (SymVal, CharStr, PyObj, PyList, SymSeq, PyDict, PySet, Clas
                      EnumMember, FuncObj, BoundMethod, Opaque, ExcObj)
 
 VERIF = os.path.dirname(os.path.dirname(os.path.abspath(__file__)))
+OUT = os.environ.get('PYVC_OUT', VERIF)
 PY_REAL = os.environ.get('PYVC_PYTHON', '/venv/bin/python')
 
 DRIVER = r'''
@@ -339,8 +340,9 @@ def decode(I, j, memo):
     return j
 
 
-def native_replay(pid, contract, ob, repo):
-    """returns dict describing the replay; key 'reproduced' True/False."""
+def native_replay(pid, contract, ob, repo, more_clauses=None):
+    """returns dict describing the replay; key 'reproduced' True/False.
+    more_clauses: [(id, text)] evaluated on the same native run (witness cross-check); values in info['values']."""
     from .runner import make_interp
     from .interp import Env, PyRaise, Unsupported
     from . import spec as S
@@ -406,9 +408,13 @@ def native_replay(pid, contract, ob, repo):
             info['why'] = 'driver failed: ' + (p.stderr or '')[-500:]
             return info
         out = json.load(open(op))
+    info['raw'] = out
+    info['names'] = [k for k in args.keys() if not k.startswith('_')]
     info['observed'] = {'raised': out.get('raised'), 'message': out.get('message'), 'result': out.get('result'),
                         'device_requests': out.get('dev'), 'clock_requests': out.get('clk'), 'stdout': out.get('stdout')}
     kind = ob.get('kind')
+    if kind == 'xcheck':
+        return info
     if kind == 'noexc':
         info['reproduced'] = out.get('raised') is not None
         info['required'] = 'no exception escapes'
@@ -453,7 +459,7 @@ def native_replay(pid, contract, ob, repo):
         penv = Env(env_vars, None, fn.module.ns, None)
         for dname, dtext in contract.defines_:
             penv.vars[dname] = I.eval_spec_value(dtext, penv)
-        if 'ghost_bisect' in clause:
+        if clause and 'ghost_bisect' in clause:
             # the clause names an existential witness supplied by ghost state that a native run does not have:
             # the clause holds natively iff it holds for some candidate witness
             vals = []
@@ -465,6 +471,16 @@ def native_replay(pid, contract, ob, repo):
                     vals.append(None)
             verdict['value'] = True if any(v is True for v in vals) else (False if all(v is False for v in vals) else None)
             return 'ok'
+        for cid_, ctext_ in (more_clauses or []):
+            try:
+                if 'ghost_bisect' in ctext_:
+                    raise Unsupported('witness clause')
+                verdict.setdefault('more', {})[cid_] = _decide(I.eval_spec(ctext_, penv))
+            except (PyRaise, Unsupported, Exception) as e_:
+                verdict.setdefault('more', {})[cid_] = 'not evaluable: %r' % (e_,)
+        if clause is None:
+            verdict['value'] = True
+            return 'ok'
         t = I.eval_spec(clause, penv)
         verdict['value'] = t
         return 'ok'
@@ -474,6 +490,7 @@ def native_replay(pid, contract, ob, repo):
         info['why'] = 'clause could not be evaluated natively: %r' % (e,)
         return info
     val = verdict.get('value')
+    info['values'] = verdict.get('more', {})
     import z3
     if not isinstance(val, bool):
         val = z3.simplify(val)
@@ -524,7 +541,7 @@ def _link_old(I, pre, post, seen=None):
 
 
 def write_replay(pid, r, ob, contracts, repo):
-    d = os.path.join(VERIF, 'replays', pid)
+    d = os.path.join(OUT, 'replays', pid)
     os.makedirs(d, exist_ok=True)
     safe = ''.join(ch if ch.isalnum() or ch in '._-' else '_' for ch in ob['name'])[:120]
     path = os.path.join(d, safe + '.json')
@@ -552,9 +569,9 @@ def write_replay(pid, r, ob, contracts, repo):
     rec['reproduced'] = reproduced
     if not reproduced:
         rec['note'] = 'no-failing-input-found: the obligation failed in the verifier; solver model above'
-    rec['rerun'] = './check %s --replay %s' % (pid, os.path.relpath(path, VERIF))
+    rec['rerun'] = './check %s --replay %s' % (pid, os.path.relpath(path, OUT))
     json.dump(rec, open(path, 'w'), indent=1, default=str)
-    return os.path.relpath(path, VERIF), reproduced
+    return os.path.relpath(path, OUT), reproduced
 
 
 def rerun(path):
